@@ -4,7 +4,7 @@ LEVEL = "model_checking"
 
 
 def run(ctx):
-    sqlprop.run_sql_property(ctx, corpus=['big', 'order', 'agg'], seeded=[], cfgs=sqlprop.MEMORY, quick_n=70, thorough_n=1200,
+    sqlprop.run_sql_property(ctx, corpus=['big', 'order', 'agg', 'spilljoin'], seeded=[], cfgs=sqlprop.MEMORY, quick_n=70, thorough_n=1200,
         envs=None, cross=None,
         rule='Each corpus case is run under memory limits of 16 B, 256 B, 4 KiB, 64 KiB and unlimited (memory and Parquet layouts, multi-batch inputs so sorts, aggregations and joins take their spill paths); an outcome must be an answer allowed by SqlSem or an explicit error, never different rows.')
 
